@@ -64,12 +64,16 @@ def make_negotiated(neighbor):
 
 
 class RibWorld:
-    def __init__(self, conf_text: str = CONF) -> None:
-        RIB._cache.clear()
-        self.conf = Configuration([conf_text], text=True)
-        if not self.conf.reload():
-            raise RuntimeError('harness configuration refused: %s' % getattr(self.conf, 'error', ''))
-        self.neighbor = list(self.conf.neighbors.values())[0]
+    def __init__(self, conf_text: str = CONF, conf=None, neighbor=None, fresh_rib: bool = True) -> None:
+        if conf is None:
+            RIB._cache.clear()
+            self.conf = Configuration([conf_text], text=True)
+            if not self.conf.reload():
+                raise RuntimeError('harness configuration refused: %s' % getattr(self.conf, 'error', ''))
+            self.neighbor = list(self.conf.neighbors.values())[0]
+        else:  # naming / concretisation tables for an existing neighbour (peer-level harness)
+            self.conf = conf
+            self.neighbor = neighbor
         self.rib = self.neighbor.rib.outgoing
         self.neg = make_negotiated(self.neighbor)
         self.addpath = {(1, 1): bool(self.neg.addpath.send(AFI.ipv4, SAFI.unicast)), (2, 1): bool(self.neg.addpath.send(AFI.ipv6, SAFI.unicast))}
@@ -87,7 +91,9 @@ class RibWorld:
                 assert self._attrof.setdefault(sig, a) == a, 'attr table not injective'
         assert len(self._keyof) == len(KEYS)
         self.gen = None
-        self.reset_world()
+        self._names = {}
+        if fresh_rib:
+            self.reset_world()
 
     def reset_world(self) -> None:
         """Fresh OutgoingRIB (public constructor) for the next script; the neighbour and tables are reused."""
@@ -142,11 +148,26 @@ class RibWorld:
         wk = dec['withdraw'][0]
         return self._keyof.get(wk, '?' + repr(wk))
 
-    def project(self) -> dict:
+    def cache_table(self) -> dict:
         cache = {k: 'none' for k in KEYS}
-        for r in self.rib.cached_routes():
+        for r in self.neighbor.rib.outgoing.cached_routes():
             k, a = self._name_route(r)
             cache[k] = a
+        return cache
+
+    def abstract_update(self, body: bytes) -> dict:
+        """Abstract one UPDATE body received by a remote speaker: {'ann': [[k, a]], 'wd': [k], 'eor': fam|'none'}."""
+        dec = wire.decode_update(body, self.addpath)
+        ann = []
+        for wk in dec['announce']:
+            k = self._keyof.get(wk, '?' + repr(wk))
+            fam = KEYS[k][0] if k in KEYS else '?'
+            ann.append([k, self._attrof.get((fam, wire.attr_signature(dec)), '?attr')])
+        wd = [self._keyof.get(wk, '?' + repr(wk)) for wk in dec['withdraw']]
+        return {'ann': ann, 'wd': wd, 'eor': FAMNAME.get(dec['eor'], '?') if dec['eor'] else 'none'}
+
+    def project(self) -> dict:
+        cache = self.cache_table()
         queued = {k: 'none' for k in KEYS}
         for r in self.rib.queued_routes():
             k, a = self._name_route(r)
